@@ -317,6 +317,16 @@ where
             return Ok(Running::Continue);
         }
 
+        // In the CLOSE_SENT state nothing more may be written, but frames that
+        // the peer sent before it saw the close can still arrive (AMQP 1.0
+        // section 2.4.6). They are not errors and there is nobody left to act
+        // on them.
+        if matches!(self.connection.local_state(), ConnectionState::CloseSent)
+            && !matches!(frame.body, FrameBody::Close(_))
+        {
+            return Ok(Running::Continue);
+        }
+
         let Frame { channel, body } = frame;
         let channel = IncomingChannel(channel);
         match body {
